@@ -10,7 +10,7 @@ SPEC = dict(
     coq_targets=["props/C32.vo"],
     drivers=[
         dict(name="snapshot", kind="test", pkg="./overlord/snapshotstate/backend", run="TestVerifC32Snapshot",
-             n=dict(quick=90, thorough=3000), timeout=dict(quick=400, thorough=3000),
+             n=dict(quick=80, thorough=3000), timeout=dict(quick=400, thorough=3000),
              ev=dict(requires=["V.lib.Bytes", "V.models.Snapshot"], case_type="Snapshot.case",
                      mismatch="Snapshot.mismatch", monitor="Snapshot.monitor_fail")),
     ],
@@ -19,7 +19,7 @@ SPEC = dict(
           "members are not real snapshots) on tar streams built with archive/tar: member names from a grammar of set-id "
           "prefixes x rests with `..`, `../`, absolute, nested, empty, `.`, `//`, trailing slash, names without `_`, random "
           "strings over `ab._/`; regular files, directories, symlinks, content.json / export.json, 1..6 members, a junk "
-          "header after k members (1/8); 14 fixed corner names first. Observed: the paths handed to backendOpen (= files "
+          "header after k members (1/8); 22 fixed corner names first (8 of them escape when the `../` check is weakened). Observed: the paths handed to backendOpen (= files "
           "written), success, and whether a digest of the whole root outside the snapshots directory is unchanged. "
           "restore: the real backend.Open + Reader.Restore (+ RestoreState.Cleanup / Revert) with the system tar on "
           "generated snapshot zips with 1..3 entries (archive.tgz, user/u1.tgz, user/u2.tgz; userLookup pointed at temp "
